@@ -1,6 +1,7 @@
 CONSTANTS
   N = 3
   Design = "percall"
+  Fams = {"gce"}
 SPECIFICATION Spec
 INVARIANTS C09_Isolated Emit
 CHECK_DEADLOCK FALSE
